@@ -292,6 +292,12 @@ Proof.
   unfold cc_grant. sbreak; [exact I|]. apply safe_authenticated. intros oc.
   sgo; repeat split; auto.
 Qed.
+Lemma jwt_bearer_grant_safe w n now r st : safe n (jwt_bearer_grant w n now r) st.
+Proof.
+  unfold jwt_bearer_grant. sbreak; [exact I|].
+  apply safe_bind_ro; [apply jwt_bearer_client_readonly|]. intros oc.
+  sgo; repeat split; auto; left; rewrite g_code_with_refresh; reflexivity.
+Qed.
 Lemma ciba_grant_safe w n now r st : safe n (ciba_grant w n now r) st.
 Proof.
   unfold ciba_grant. sbreak; [exact I|]. apply safe_authenticated. intros oc.
@@ -381,6 +387,7 @@ Proof.
   - apply continue_auth_safe.
   - apply push_auth_safe.
   - apply cc_grant_safe. - apply code_grant_safe; auto. - apply refresh_grant_safe; auto.
+  - apply jwt_bearer_grant_safe.
   - apply ciba_grant_safe.
   - apply nosave_safe, introspect_nosave.
   - apply nosave_safe, revoke_nosave.
